@@ -40,4 +40,11 @@ SmallClauses == (v.stage = "small" /\ ValidDots(v.dots)) => \A k \in 1..Len(Args
 \* the piece chosen by Get is one whose ends enclose x
 PieceEncloses == ValidDots(v.dots) => \A k \in 1..Len(Args) :
                    (v.dots[1].x <= Args[k] /\ Args[k] <= v.dots[Len(v.dots)].x) => Between(v.dots, Piece(v.dots, Args[k]), Args[k])
+\* the scalar forms of PieceFunc.tla for 2 and 3 dots are ValidDots/Get
+ScalarForms ==
+  LET d == v.dots IN
+  /\ Len(d) = 2 => /\ ValidDots(d) = Valid2(d[1].x, d[1].y, d[2].x, d[2].y)
+                   /\ ValidDots(d) => \A k \in 1..Len(Args) : Get(d, Args[k]) = Get2(d[1].x, d[1].y, d[2].x, d[2].y, Args[k])
+  /\ Len(d) = 3 => /\ ValidDots(d) = Valid3(d[1].x, d[1].y, d[2].x, d[2].y, d[3].x, d[3].y)
+                   /\ ValidDots(d) => \A k \in 1..Len(Args) : Get(d, Args[k]) = Get3(d[1].x, d[1].y, d[2].x, d[2].y, d[3].x, d[3].y, Args[k])
 =============================================================================
